@@ -34,12 +34,12 @@ type stats struct {
 	atomic, atomicResent, atomicTailChanged, group, groupResent, padded, breakLoses bool
 	fill, breaks                                                                    int
 	breakVia, aimed, breakCode                                                      map[string]bool
-	collectorSideLoses, recvTimeout, slashPath                                      bool
+	collectorSideLoses, recvTimeout, slashPath, unscriptedEnd                       bool
 	// client queries that address part of a target, one Query value used for several subscriptions
 	narrowObserver, slashQuery, bracketQuery, onceFirst, reconnectObserver, cutsDone, cutNoEffect, resubscribed bool
-	reuse, reuseSlash                                                                                            bool
-	lastAwait                                                                       string // the op before the one being interpreted was an await for this event
-	aimedBig                                                                        bool
+	reuse, reuseSlash                                                                                           bool
+	lastAwait                                                                                                   string // the op before the one being interpreted was an await for this event
+	aimedBig                                                                                                    bool
 	// what the observers that lived while the scripts played went through (schedule dependent; labels only)
 	observers                                                                    int
 	slowObserver, paused, coalesced, coalescedAtPaused, coalescedAtomic          bool
@@ -95,6 +95,7 @@ func (s *stats) labels() []string {
 		l = append(l, "stream-ends-with-status-"+v)
 	}
 	add(s.recvTimeout, "target-with-receive-timeout")
+	add(s.unscriptedEnd, "receive-timeout-fired-unscripted")
 	add(s.slashPath, "path-element-or-key-with-slash")
 	add(s.narrowObserver, "observer-with-query-paths")
 	add(s.slashQuery, "observer-query-with-slash")
@@ -602,6 +603,7 @@ func runOnce(e *env, workDir string, sc *Scenario, st *stats) error {
 	defer h.change(func() { h.over = true })
 
 	err = judge(e, dir, id, sc, st, ref, h, fr, col, servers, want)
+	st.unscriptedEnd = h.unscriptedEnds() > 0
 	// A target configured with a receive timeout depends on the scripted target's heartbeats arriving in time:
 	// a machine that stalls for longer makes the collector drop and re-read the target's state at an instant
 	// the script did not choose. A verdict against the code therefore needs positive evidence that this did
@@ -630,6 +632,9 @@ func judge(e *env, dir, id string, sc *Scenario, st *stats, ref map[string]inter
 		return err
 	}
 	fr.stop()
+	if debugStall > 0 {
+		time.Sleep(debugStall / 2) // harness self-test: let the fresh observers meet the stalled target's reset
+	}
 
 	// observer (a): the client library's cache, per target and for all targets
 	for _, tg := range sc.Targets {
